@@ -1069,6 +1069,19 @@ func (db *DB) init(ctx context.Context) (err error) {
 		return err
 	}
 
+	// Ensure database is closed if init fails.
+	// Initialization can retry on next sync.
+	defer func() {
+		if err != nil {
+			_ = db.releaseReadLock()
+			db.db.Close()
+			if db.f != nil {
+				db.f.Close()
+			}
+			db.db, db.f = nil, nil
+		}
+	}()
+
 	// Set PERSIST_WAL to prevent WAL file removal when database connections close.
 	if err := db.setPersistWAL(ctx); err != nil {
 		return fmt.Errorf("set PERSIST_WAL: %w", err)
@@ -1078,17 +1091,6 @@ func (db *DB) init(ctx context.Context) (err error) {
 	if db.f, err = os.Open(db.path); err != nil {
 		return fmt.Errorf("open db file descriptor: %w", err)
 	}
-
-	// Ensure database is closed if init fails.
-	// Initialization can retry on next sync.
-	defer func() {
-		if err != nil {
-			_ = db.releaseReadLock()
-			db.db.Close()
-			db.f.Close()
-			db.db, db.f = nil, nil
-		}
-	}()
 
 	// Enable WAL and ensure it is set. New mode should be returned on success:
 	// https://www.sqlite.org/pragma.html#pragma_journal_mode
